@@ -78,6 +78,13 @@ class C14(Check):
                     for fixed in ([], [0], [0, 1], [1, 0]):
                         yield {"algo": algo, "shape": list(shape), "family": group["family"], "rank": rank, "weights": "none", "fixed": fixed,
                                "container": "tuple", "K": K, "seed": seed, "api": "class"}
+                    # masked data that the supplied decomposition fits exactly on the observed entries: the first sweep must impute the
+                    # hidden entries from the SUPPLIED tensor, which makes it a fixed point, whatever the caller left in the hidden entries
+                    if group["family"] == "generic" and all(r <= s_ for r, s_ in zip(rank, shape)):
+                        for container in ("tuple", "object"):
+                            for garbage in (0.0, 7.0, -1e3):
+                                yield {"algo": algo, "shape": list(shape), "family": group["family"], "rank": rank, "weights": "none", "fixed": [],
+                                       "container": container, "K": K, "seed": seed, "maskfix": garbage}
             return
         if algo == "parafac":
             # long runs with line search (it starts at sweep 7): fixed factors must stay bit-identical through accepted jumps too
@@ -124,7 +131,47 @@ class C14(Check):
                                "container": container, "K": K, "seed": seed}
 
     # ------------------------------------------------------------------------------
+    def _run_maskfix(self, case, ctx):
+        import tensorly as tl
+        import tensorly.decomposition as D
+        from tensorly.tucker_tensor import TuckerTensor
+        from vmc import values as V
+
+        shape, rank, seed = tuple(case["shape"]), list(case["rank"]), case["seed"]
+        facs = [np.ascontiguousarray(np.linalg.qr(V.generic((s, rank[k]), seed + 61 + k))[0]) for k, s in enumerate(shape)]
+        core = V.generic(tuple(rank), seed + 71)
+        target = itm.tucker_dense(core, facs)
+        mask = itm.mask_tensor(shape, seed)
+        if mask.all():
+            ctx.count("guarded_out:maskfix-mask-hides-nothing")
+            return
+        X = target * mask + case["maskfix"] * (1 - mask)
+        tol = 1e-8 * max(1.0, float(np.linalg.norm(target)))
+        for k in range(0, case["K"] + 1):
+            ctx.evaluations += 1
+            c, fs = core.copy(), [f.copy() for f in facs]
+            init = TuckerTensor((c, fs)) if case["container"] == "object" else (c, fs)
+            label = (f"tucker(X, rank={rank}, init=<exact fit of the observed entries>, mask, n_iter_max={k}, tol=0); shape {shape}, hidden entries of X "
+                     f"hold {case['maskfix']}, container {case['container']}")
+            try:
+                with np.errstate(all="ignore"):
+                    r = D.tucker(tl.tensor(X.copy()), rank, n_iter_max=k, init=init, tol=0, mask=tl.tensor(mask.copy()))
+                got = itm.tucker_dense(r[0], r[1])
+            except Exception as e:
+                ctx.violation("tucker/masked-warm-start/raises", f"{label}: {type(e).__name__}: {e}")
+                return
+            d = float(np.linalg.norm(got - target))
+            ctx.nontriv([case, k])
+            ctx.outcome("maskfix:" + ("fixed-point-kept" if d <= tol else "moved"))
+            if not d <= tol:
+                ctx.violation("tucker/masked-warm-start/" + ("zero-budget-result-differs" if k == 0 else "exact-initialisation-is-not-a-fixed-point"),
+                              f"{label}: the result differs from the supplied tensor by {d:.3g} (the supplied decomposition fits every observed entry exactly, "
+                              f"so iteration that starts from it - hidden entries imputed from it - stays there)")
+                return
+
     def run_case(self, case, ctx):
+        if case.get("maskfix") is not None:
+            return self._run_maskfix(case, ctx)
         import tensorly as tl
         from tensorly import decomposition as D
         from tensorly.cp_tensor import CPTensor
